@@ -24,6 +24,7 @@ type SpecEnv struct {
 	lookup func(st *State, name string) (*Val, bool)
 	entry  *State // state at loop entry (for entry(e) in loop clauses)
 	visited string // visited-key set of the map range loop the clause belongs to
+	pol     int    // +1 (or 0 at top): formula will be proved; -1: it will be assumed; 2: mixed
 	cbOrd   int    // callback whose invariant is being evaluated (for _n, _a0..)
 	cbN     string
 	frame  *Frame
@@ -33,6 +34,31 @@ type SpecEnv struct {
 type specErr struct{ msg string }
 
 func sfail(format string, a ...any) { panic(specErr{fmt.Sprintf(format, a...)}) }
+
+func (env *SpecEnv) flip() *SpecEnv {
+	n := *env
+	switch env.pol {
+	case 0, 1:
+		n.pol = -1
+	case -1:
+		n.pol = 1
+	}
+	return &n
+}
+
+func (env *SpecEnv) mixed() *SpecEnv {
+	n := *env
+	n.pol = 2
+	return &n
+}
+
+// assuming returns a copy of the environment for a formula that will be
+// assumed rather than proved.
+func (env *SpecEnv) assuming() *SpecEnv {
+	n := *env
+	n.pol = -1
+	return &n
+}
 
 func (env *SpecEnv) child() *SpecEnv {
 	n := *env
@@ -105,10 +131,11 @@ func (env *SpecEnv) eval(e ast.Expr) *Val {
 	case *ast.Ident:
 		return env.ident(n.Name)
 	case *ast.UnaryExpr:
+		if n.Op == token.NOT {
+			return mkBool(tNot(env.flip().eval(n.X).T()))
+		}
 		v := env.eval(n.X)
 		switch n.Op {
-		case token.NOT:
-			return mkBool(tNot(v.T()))
 		case token.SUB:
 			return &Val{Ty: v.Ty, L: []string{tNeg(v.T())}}
 		case token.ADD:
@@ -455,9 +482,10 @@ func (env *SpecEnv) call(n *ast.CallExpr) *Val {
 	if id, ok := n.Fun.(*ast.Ident); ok {
 		switch id.Name {
 		case "implies_":
-			return mkBool(tImp(env.eval(n.Args[0]).T(), env.eval(n.Args[1]).T()))
+			return mkBool(tImp(env.flip().eval(n.Args[0]).T(), env.eval(n.Args[1]).T()))
 		case "iff_":
-			return mkBool(tEq(env.eval(n.Args[0]).T(), env.eval(n.Args[1]).T()))
+			m := env.mixed()
+			return mkBool(tEq(m.eval(n.Args[0]).T(), m.eval(n.Args[1]).T()))
 		case "forall_", "exists_":
 			return env.quant(id.Name == "forall_", n)
 		case "forall_t", "exists_t":
@@ -668,7 +696,15 @@ func (env *SpecEnv) quant(forall bool, n *ast.CallExpr) *Val {
 	facts, body := x.captured(func() string { return sub.eval(n.Args[3]).T() })
 	rng := tAnd(tCmp("<=", lo, bv), tCmp("<", bv, hi))
 	if forall {
+		if env.pol == -1 {
+			// assumed: the (valid) side facts strengthen the instance
+			return mkBool("(forall ((" + bv + " Int)) " + tImp(rng, tAnd(facts, body)) + ")")
+		}
 		return mkBool("(forall ((" + bv + " Int)) " + tImp(tAnd(rng, facts), body) + ")")
+	}
+	if env.pol == 0 || env.pol == 1 {
+		// to be proved: the side facts are not part of the claim
+		return mkBool("(exists ((" + bv + " Int)) " + tAnd(rng, body) + ")")
 	}
 	return mkBool("(exists ((" + bv + " Int)) " + tAnd(rng, facts, body) + ")")
 }
@@ -695,14 +731,23 @@ func (env *SpecEnv) quantTyped(forall bool, n *ast.CallExpr) *Val {
 	}
 	sub := env.child()
 	sub.vars[id.Name] = bvv
-	facts, body := x.captured(func() string {
+	domain, _ := x.captured(func() string {
 		x.typeFacts(bvv)
+		return "true"
+	})
+	facts, body := x.captured(func() string {
 		return sub.eval(n.Args[2]).T()
 	})
 	if forall {
-		return mkBool("(forall (" + strings.Join(binders, " ") + ") " + tImp(facts, body) + ")")
+		if env.pol == -1 {
+			return mkBool("(forall (" + strings.Join(binders, " ") + ") " + tImp(domain, tAnd(facts, body)) + ")")
+		}
+		return mkBool("(forall (" + strings.Join(binders, " ") + ") " + tImp(tAnd(domain, facts), body) + ")")
 	}
-	return mkBool("(exists (" + strings.Join(binders, " ") + ") " + tAnd(facts, body) + ")")
+	if env.pol == 0 || env.pol == 1 {
+		return mkBool("(exists (" + strings.Join(binders, " ") + ") " + tAnd(domain, body) + ")")
+	}
+	return mkBool("(exists (" + strings.Join(binders, " ") + ") " + tAnd(domain, facts, body) + ")")
 }
 
 // captured runs f while collecting (instead of asserting) the side facts it
